@@ -15,7 +15,7 @@ CHECKS["C17"] = dict(
           "dissemination reaches every replica exactly once and aggregation brings n votes to the root; tree-based leader "
           "= root from every replica; wait times follow the shape (2*(height-1)*delta, or slowest child's wait + round trip "
           "+ delta); asking twice gives the same answers and the positions are not modified. "
-          "TestC17Exhaustive: ALL permutations for n<=6 (quick) / n<=7 (thorough) x bf 2..6 x 4 constructors. TestC17Grid: every "
+          "TestC17Exhaustive: ALL permutations for n<=6 (quick) / n<=7 (thorough) x bf 2..6 x 4 constructors, plus all 40320 permutations of n=8, bf=2 (smallest four-level tree; aggregation constructor in quick, all four in thorough). TestC17Grid: every "
           "(n, bf) in 1..40 x 2..6 x 4 constructors x 7 structured permutations. TestC17Random: rapid permutations, n 1..40 "
           "(90% n>=7). TestC17Shuffle (in package tree, random source re-seeded from the case): tree.Shuffle returns a "
           "permutation of its input. Non-trivial = n >= 2 (two different Tree objects must agree on at least one edge); for "
